@@ -64,7 +64,7 @@ def enumerated(tier, seed):
 
 
 def searches(tier):
-    n = 2500 if tier == "quick" else 200000
+    n = 2500 if tier == "quick" else 100000
     return [("roundtrip", _roundtrip, n), ("foreign", _foreign, n),
             ("roundtrip_with_empty_files", _roundtrip0, n // 10), ("foreign_with_empty_files", _foreign0, n // 10)]
 
